@@ -26,6 +26,8 @@ Fails(t) ==
   IF t.panic # "" THEN {"panic"}
   ELSE IF t.op = "New" THEN If(t.avail = t.modes, IF t.custom THEN "supplied-modes-used" ELSE "default-modes-used")
                             \cup If(SetOf(t.post) = InitialValues(t.modes), "first-value-of-each-mode-selected")
+                            \* (modepb has one constructor argument and no options: nothing to order)
+                            \cup If(t.seed = t.post, "pull-seed-is-first-read")
   ELSE UpdateFails(t)
 
 BadLines == { k \in 1..Len(Obs) : Fails(Obs[k]) # {} }
